@@ -6,6 +6,14 @@ use serde_json::{json, Value};
 use std::io::{BufRead, Write};
 
 mod cmds;
+#[cfg(feature = "server_dto")]
+#[path = "gen/double_labeled_graph.rs"]
+mod double_labeled_graph;
+#[cfg(feature = "server_dto")]
+#[path = "gen/server_dto.rs"]
+mod server_dto;
+#[cfg(feature = "server_dto")]
+mod server_cmds;
 
 pub fn dump_nodes(bdd: &Bdd) -> Value {
     Value::Array(
